@@ -225,6 +225,69 @@ Proof.
   repeat (apply bind_ok in H; destruct H as (? & _ & H)). injection H as <-. cbn. repeat split; reflexivity.
 Qed.
 
+(* the finished stream, as the codec area sees it: a metadata region that reads as the final STREAMINFO, followed by
+   exactly the frames the block encoder model produced for the blocks *)
+Lemma finished_stream_form wo ch total e0 bl e f :
+  encoder_new p [] wo rate bps ch total = Ok e0 ->
+  reach e0 bl e ->
+  encoder_finalize md5 p e = Ok f ->
+  EP.blocks_samples bl < 2 ^ 64 ->
+  exists bytes,
+    FlacCodec.Stream.read_metadata_min (f_stream f) = Some (conv_si (f_si f), bytes) /\
+    E.enc_blocks o L rate bps 0 bl = Some bytes /\
+    FlacCodec.Ast.si_total (conv_si (f_si f)) = EP.blocks_samples bl /\
+    FlacCodec.Ast.si_rate (conv_si (f_si f)) = rate /\ FlacCodec.Ast.si_bps (conv_si (f_si f)) = bps /\
+    FlacCodec.Ast.si_min_bs (conv_si (f_si f)) = o_block_size wo /\ FlacCodec.Ast.si_max_bs (conv_si (f_si f)) = o_block_size wo.
+Proof.
+  intros Hnew Hr Hfin Hfit.
+  destruct (encoder_new_fresh _ _ _ _ Hnew) as (P0 & F0 & K0 & W0 & Sr & Sb & Sc & Smax & Smin & St).
+  destruct (reach_inv e0 bl e Hr) as (Sm & R1 & R2 & R3 & R4 & R5 & R6 & R7 & R8 & bytes & Hb & Hf).
+  rewrite K0 in Hb. rewrite W0 in R8. unfold blocks_len in R8. specialize (R8 ltac:(lia)).
+  assert (Hfr : frames_bytes e = bytes) by (rewrite Hf; unfold frames_bytes; rewrite F0; reflexivity).
+  pose proof (finalize_layout_from md5 md5_length p e0 e f (encoder_new_meta p _ _ _ _ _ _ _ Hnew) Sm Hfin) as Hlay.
+  destruct Hlay as (meta' & Hw & _ & _ & _ & Hs).
+  destruct (finalize_si e f Hfin) as (_ & Fr & Fc & Fb & Fmax & Fmin).
+  unfold encoder_finalize, encoder_finalize_gen in Hfin.
+  apply bind_ok in Hfin. destruct Hfin as (blocks & _ & Hfin).
+  apply bind_ok in Hfin. destruct Hfin as (tot & Htot & Hfin).
+  apply bind_ok in Hfin. destruct Hfin as (meta & _ & Hfin). injection Hfin as <-.
+  cbn [f_si f_blocks f_enc f_stream] in *.
+  rewrite Hs, P0, Hfr. cbn [app].
+  set (wsi := with_total_md5 (e_si e) tot (Some (md5 (md5_input e)))) in *.
+  assert (Hmd : md5_len_ok wsi) by (unfold md5_len_ok, wsi; cbn; apply md5_length).
+  exists bytes. split; [apply (read_written_metadata wsi blocks meta' bytes Hw Hmd)|]. split; [exact Hb|].
+  split.
+  { unfold conv_si, wsi. cbn. unfold finalize_total in Htot. rewrite R6, St in Htot.
+    destruct total as [t|].
+    - destruct (N.eqb_spec t (e_samples_written e)) as [E|]; [|discriminate]. injection Htot as <-. cbn. lia.
+    - destruct (e_samples_written e <? MAX_SAMPLES); [|discriminate].
+      destruct (e_samples_written e =? 0); [discriminate|]. injection Htot as <-. cbn. lia. }
+  unfold conv_si. cbn [FlacCodec.Ast.si_rate FlacCodec.Ast.si_bps FlacCodec.Ast.si_min_bs FlacCodec.Ast.si_max_bs].
+  repeat split; congruence.
+Qed.
+
+(* C02 end to end: the strict stream validator of the codec area accepts the finished file and yields the blocks *)
+Theorem e2e_encoder_spec wo ch total e0 bl e f :
+  encoder_new p [] wo rate bps ch total = Ok e0 ->
+  reach e0 bl e ->
+  encoder_finalize md5 p e = Ok f ->
+  Forall (EP.block_ok (conv_si (f_si f)) bps) bl ->
+  FlacCodec.File.full_but_last (conv_si (f_si f)) bl ->
+  N.of_nat (length bl) <= FlacCodec.Header.MAX_FRAME_NUMBER + 1 ->
+  EP.blocks_samples bl < 2 ^ 64 ->
+  16 <= o_block_size wo ->
+  FlacCodec.Spec.spec_stream (f_stream f) = Ok (conv_si (f_si f), bl).
+Proof.
+  intros Hnew Hr Hfin Hall Hfull Hlen Hfit H16.
+  destruct (finished_stream_form wo ch total e0 bl e f Hnew Hr Hfin Hfit) as (bytes & Hmeta & Hb & Htot & Hrate & Hbps & Hmin & Hmax).
+  unfold FlacCodec.Spec.spec_stream. rewrite Hmeta.
+  rewrite <- Hrate, <- Hbps in Hb. rewrite <- Hbps in Hall.
+  rewrite (FlacCodec.File.spec_frames_enc o L (conv_si (f_si f)) ltac:(rewrite Hmax; exact H16) bl 0 bytes (S (length bytes)) [] Hb Hall ltac:(rewrite N.add_0_l; exact Hlen) Hfull ltac:(lia)).
+  cbn [rev app bind]. rewrite FlacCodec.File.fold_left_block_sum, N.add_0_l, Hmin, Hmax.
+  destruct (N.leb_spec 16 (o_block_size wo)); [|lia]. rewrite N.leb_refl. cbn [andb negb].
+  rewrite Htot, N.eqb_refl, Bool.orb_true_r. reflexivity.
+Qed.
+
 (* C01 end to end for FlacSampleWriter: the file its run produces decodes to exactly the blocks handed to
    Encoder::encode (the writers area relates those to the PCM written: C08/C09) *)
 Theorem e2e_sample_writer wo ch total w chunks f :
